@@ -66,3 +66,32 @@ mod imp {
 }
 
 pub use imp::*;
+
+/// Thread-count configuration of a harness: a symbolic count in `1..=n`
+/// (decided for all counts in one query) or one concrete count (the
+/// configuration quantifier enumerated over several harnesses where the
+/// symbolic form is too expensive). Encoded in one `usize`: `n` = any of
+/// 1..=n, `EXACT + p` = exactly p.
+pub const EXACT: usize = 1000;
+
+/// Sets `available_parallelism()` and returns the chosen count.
+pub fn threads(cfg: usize) -> usize {
+    let p = if cfg >= EXACT {
+        cfg - EXACT
+    } else {
+        crate::nd::below(cfg) + 1
+    };
+
+    set_parallelism(p);
+
+    p
+}
+
+/// Largest count the configuration allows.
+pub const fn threads_max(cfg: usize) -> usize {
+    if cfg >= EXACT {
+        cfg - EXACT
+    } else {
+        cfg
+    }
+}
